@@ -258,3 +258,91 @@ def check_c12(pid, tier, replay):
 def check_c19(pid, tier, replay):
     q = tier == "quick"
     return run_synth_family(pid, tier, replay, "sysex", 600 if q else 5000, 40 if q else 60)
+
+
+# ------------------------------------------------------------------ C16 bank map
+import gen_bank
+
+BANK_CFG = """SPECIFICATION Spec
+CONSTANTS
+  MaxDepth = %(depth)d
+  InitCap = %(cap)d
+  EmitDepth = %(emit)d
+INVARIANT NoBad
+%(extra)s
+CHECK_DEADLOCK FALSE
+"""
+
+
+@register("C16")
+def check_c16(pid, tier, replay):
+    t0 = time.time()
+    q = tier == "quick"
+    rng = random.Random(vc.seed() * 7919 + 16)
+
+    def rerun(hist):
+        f, _, _ = vtrace.run_histories(pid + "r", "drive_bank", "BankTrace", [hist], nchunks=1, marker='{"o":"init"')
+        return f
+
+    if replay:
+        hist = [json.loads(l) for l in open(replay) if l.strip()]
+        firsts = vtrace.first_failures(rerun(hist), pid)
+        if firsts:
+            f = list(firsts.values())[0]
+            print("VIOLATION property=%s replay=%s" % (pid, replay))
+            print("  what=%s at step %d (%s)" % (f.what, f.step, f.event))
+            return 1
+        print("OK replay holds")
+        return 0
+
+    # leg A: exhaustive model checking of the concrete map against the abstract map
+    mruns = []
+    for (depth, cap) in ([(6, 0), (6, 5)] if q else [(8, 0), (7, 4), (7, 5)]):
+        cfg = write_cfg("BankMapMC_%d_%d.cfg" % (depth, cap), BANK_CFG % {"depth": depth, "cap": cap, "emit": 0, "extra": "CONSTRAINT DepthBound\nVIEW View"})
+        r = vc.run_tlc("BankMapMC", cfg=cfg, timeout=2400, heap="16g")
+        r.scope = {"depth": depth, "initcap": cap}
+        mruns.append(r)
+    # TLC-generated behaviours (simulation) replayed on the real map
+    ops = gen_bank.mc_ops()
+    beh_hist = []
+    for cap in (0, 5):
+        cfg = write_cfg("BankMapMC_sim_%d.cfg" % cap, BANK_CFG % {"depth": 1000, "cap": cap, "emit": 20, "extra": "CONSTRAINT Emit"})
+        r = vc.run_tlc("BankMapMC", cfg=cfg, timeout=600, heap="4g", simulate=(40 if q else 400), depth=21, workers=4)
+        for b in re.findall(r'"BEHAVIOUR",\s*"(\[[0-9,\s]*\])"', r.out):
+            h = [{"o": "init", "probe": gen_bank.UNIVERSE}] + ([{"o": "reserve", "n": cap}] if cap else [])
+            for i in json.loads(b):
+                op = ops[i - 1]
+                if op["o"] == "clear":
+                    op = {"o": "load", "keys": [{"key": 0, "tok": 7}, {"key": 32768, "tok": 0}], "bad": 1}  # a rejected load = no-op
+                h.append(op)
+            beh_hist.append(h)
+    histories = list(beh_hist)
+    nmb = len(histories)
+    ex = list(gen_bank.exhaustive(2 if q else 3)) + list(gen_bank.exhaustive(2, initcap=5))
+    histories += ex
+    histories += [gen_bank.random_history(rng, 40 if q else 80) for _ in range(300 if q else 3000)]
+    failures, counters, stats = vtrace.run_histories(pid, "drive_bank", "BankTrace", histories, marker='{"o":"init"')
+    if stats["infra"]:
+        print("INFRA:", stats["infra"][0][:2000])
+        return 3
+    coverage = {
+        "states": sum(r.distinct for r in mruns), "transitions": sum(r.generated for r in mruns),
+        "traces_validated_against_impl": len(histories), "records_validated": stats["records"],
+        "model_generated_behaviours_replayed": nmb, "exhaustive_short_histories": len(ex),
+        "refinement": {"steps_checked_against_model": counters.get("refined", 0), "steps_drifted": counters.get("drifted", 0),
+                       "first_drifts": stats.get("drift", [])[:5]},
+        "monitor_counters": counters,
+        "samples": sample_histories(histories[nmb + len(ex):], 2, 12) + sample_histories(histories[:1], 1, 12),
+        "model_runs": [{"scope": r.scope, "ok": r.ok, "violation": r.violation, "distinct": r.distinct, "generated": r.generated,
+                        "wall_s": round(r.wall, 1)} for r in mruns],
+        "exhaustive": False,
+    }
+    for r in mruns:
+        if r.violation or not r.ok:
+            print("MODEL-DRIFT: BankMapMC %s reports %s" % (r.scope, r.violation or ("rc=%s" % r.rc)))
+    if counters.get("drifted", 0):
+        print("MODEL-DRIFT: %d recorded steps differ from spec/BankMap.tla (iteration order / capacity): %s" % (counters["drifted"], json.dumps(stats["drift"][:2])))
+    return conclude(pid, tier, "model_checking", histories, failures, rerun, coverage, t0,
+                    ["harness/drive_bank.cpp observes the map only through the public bank API",
+                     "allocation counting by a harness-side operator new override",
+                     "a stale OPN2_Bank handle is never passed (API contract): remove/set use a fresh lookup"])
